@@ -146,6 +146,24 @@ Section IO.
     end.
   Definition read_raw (g : grid T) (toks : list tk) : option (grid T * list tk) := read_raw_s g (strip toks).
 
+  (* unformatted (cvm::memory_stream) raw form: the values themselves, in the same order, no separators; an
+     extraction fails when fewer bytes than one value remain.  The stream is modelled as a list of values *)
+  Definition write_raw_bin (g : grid T) : list tk := map TNum (raw_values g).
+  Definition read_raw_bin (g : grid T) (s : list tk) : option (grid T * list tk) := read_raw_s g s.
+
+  (* grids attached to a sample-count grid (colvar_grid_gradient / colvar_grid_scalar with `samples`):
+     value_output(ix, imult) = data / count(ix) when count(ix) > 0, else 0;
+     value_input(ix, v, imult, add = false) = v * count(ix).  [m] values per point, one count per point. *)
+  Definition out_norm (c v : T) : T := if nltb O (n0 O) c then ndiv O v c else n0 O.
+  Definition in_norm (c v : T) : T := nmul O v c.
+  Fixpoint scale_chunks (f : T -> T -> T) (m : nat) (counts data : list T) : list T :=
+    match counts with
+    | [] => []
+    | c :: cs => map (f c) (firstn m data) ++ scale_chunks f m cs (skipn m data)
+    end.
+  Definition normalise (m : nat) (counts data : list T) : list T := scale_chunks out_norm m counts data.
+  Definition denormalise (m : nat) (counts data : list T) : list T := scale_chunks in_norm m counts data.
+
   (* ------------------------------------------------------------------ multicolumn form *)
   Fixpoint header_lines (lower width : list T) (nx : list Z) (per : list bool) : list tk :=
     match lower, width, nx, per with
@@ -199,14 +217,16 @@ Section IO.
 
   (* the re-gridding loop  while (is.good()) { read nd coordinates or stop; read mult values; enter them
      in the bin of the receiving grid (periodic dimensions wrapped) when that bin exists }.
-     The loop ends where the coordinates cannot be read (end of file or anything else). *)
+     The loop can only end by failing to read a further record: at the end of the stream that is the normal end
+     (the stream state is cleared); anything else where a record should begin, or a record that is not complete,
+     leaves the stream in the failed state: None. *)
   Fixpoint remap_rows (fuel : nat) (add : bool) (g : grid T) (s : list tk) (data : list T)
     : option (list T * list tk) :=
     match fuel with
     | 0%nat => Some (data, s)
     | S f =>
       match take_nums (gnd g) s with
-      | None => Some (data, s)
+      | None => match s with [] => Some (data, []) | _ :: _ => None end
       | Some (xs, s1) =>
         match take_nums (gmult g) s1 with
         | None => None
@@ -221,7 +241,7 @@ Section IO.
   Definition read_multicol_s (add : bool) (g : grid T) (s : list tk) : option (grid T * list tk) :=
     match s with
     | THash :: TInt n :: s1 =>
-      if n =? Z.of_nat (gnd g) then
+      if (n =? Z.of_nat (gnd g)) && (0 <? n) then
         match read_header (gnd g) s1 with
         | None => None
         | Some (h, s2) =>
@@ -237,6 +257,16 @@ Section IO.
     end.
   Definition read_multicol (add : bool) (g : grid T) (toks : list tk) : option (grid T * list tk) :=
     read_multicol_s add g (strip toks).
+
+  (* the multicolumn form of a grid normalised by its count grid: what is written is data/count, what is read
+     (add = false) is multiplied by the counts the receiving grid has at that moment *)
+  Definition write_multicol_norm (counts : list T) (g : grid T) : list tk :=
+    write_multicol (set_data g (normalise (gmult g) counts (gr_data g))).
+  Definition read_multicol_norm (counts : list T) (g : grid T) (toks : list tk) : option (grid T * list tk) :=
+    match read_multicol false g toks with
+    | Some (g', r) => Some (set_data g' (denormalise (gmult g) counts (gr_data g')), r)
+    | None => None
+    end.
 
   Definition zeros (n : nat) : list T := repeat (n0 O) n.
 
@@ -394,6 +424,38 @@ Section IO.
       | Some g1 => read_raw g1 rest
       end
     end.
+
+  (* ------------------------------------------------------------------ decimal formatting of numbers *)
+  (* What operator<< followed by operator>> does to a number at [p] significant digits (setprecision(p-1) in
+     scientific notation, setprecision(p) in the default notation): x is replaced by the nearest multiple of
+     10^(e-p+1), where 10^e <= |x| < 10^(e+1).  (Ties: the C library rounds them to even, this model upwards;
+     both are nearest values.)  The exponent is found by comparison with powers of ten, on explicit fuel. *)
+  Fixpoint p10 (n : nat) : T := match n with 0%nat => n1 O | S k => nmul O (nofZ O 10) (p10 k) end.
+  Definition scale10 (e : Z) (x : T) : T :=
+    match e with
+    | Z0 => x
+    | Zpos q => nmul O x (p10 (Pos.to_nat q))
+    | Zneg q => ndiv O x (p10 (Pos.to_nat q))
+    end.
+  Fixpoint exp_up (fuel : nat) (e : Z) (a : T) : Z :=
+    match fuel with
+    | 0%nat => e
+    | S f => if nleb O (scale10 (e + 1) (n1 O)) a then exp_up f (e + 1) a else e
+    end.
+  Fixpoint exp_down (fuel : nat) (e : Z) (a : T) : Z :=
+    match fuel with
+    | 0%nat => e
+    | S f => if nltb O a (scale10 e (n1 O)) then exp_down f (e - 1) a else e
+    end.
+  Definition dec_exp (fuel : nat) (a : T) : Z :=
+    if nleb O (n1 O) a then exp_up fuel 0 a else exp_down fuel 0 a.
+  Definition round_at (k : Z) (x : T) : T :=
+    scale10 (- k) (nofZ O (nfloor O (nadd O (scale10 k x) (nhalf O)))).
+  Definition dec_round (p fuel : nat) (x : T) : T :=
+    if neqb O x (n0 O) then x else round_at (Z.of_nat p - 1 - dec_exp fuel (nabs O x)) x.
+  (* a written stream as it is read back: every number rounded to p digits *)
+  Definition fmt_tok (p fuel : nat) (t : tk) : tk := match t with TNum x => TNum (dec_round p fuel x) | _ => t end.
+  Definition fmt_toks (p fuel : nat) (s : list tk) : list tk := map (fmt_tok p fuel) s.
 
   (* ------------------------------------------------------------------ OpenDX header *)
   (* counts, origin (centre of the first bin), one delta line per variable *)
